@@ -137,6 +137,13 @@ func c15RunFan(in c15FanIn) (obs c15FanObs) {
 				c15Quiesce(env.open)
 			}
 		}
+		// The broker is about to close this connection from the outside (takeover, admin delete): its read loop must
+		// be parked in the socket read by then. A read loop that is still on its way back from answering our last
+		// barrier PINGREQ would notice the close at once and tear the connection down by itself - legal, but then
+		// the harness no longer controls when that teardown happens.
+		if !c15Quiesce(env.open) {
+			obs.Bad = append(obs.Bad, "hung: no quiescence before "+c.Cid+" changes: "+c15LastStuck)
+		}
 		if c.Takeover > 0 && !c.Left && !c.Gone {
 			// make sure the session has served this connection before it is taken over
 			if len(c.Subs) > 0 {
@@ -144,6 +151,7 @@ func c15RunFan(in c15FanIn) (obs c15FanObs) {
 				env.httpPublishDist(warm, 0, "warm-up", true)
 				c15Quiesce(env.open)
 				cli.ping()
+				c15Quiesce(env.open)
 			}
 			for n := 0; n < c.Takeover && n < 2; n++ {
 				again, code := env.dial(c.Cid, false, true) // the old connection stays open: a takeover
